@@ -597,7 +597,11 @@ fn drive_connection(
             }
             Ok(_) => continue,
             Err(ref e) if would_block(e) => return false,
-            Err(ref e) if interrupted(e) => return drive_connection(conn, wbuf, msgs),
+            Err(ref e) if interrupted(e) => {
+                // Nothing was written: keep the buffer so that it is retried first.
+                wbuf.replace(buf);
+                continue;
+            }
             Err(e) => {
                 error!(?conn, error = %e, "write failed");
                 return true;
